@@ -51,6 +51,13 @@ def obligations(tier):
         obs.append(Ob(f'C11.two.{n1}.{n2}', 'harness.C11', 'table_two_ops', bind=bind, timeout=t if tier == 'quick' else 900,
                       functions=F, twin=(tier == 'quick'), bounds=f'3 objects, operation "{n1}" then "{n2}" with any operands',
                       claim='same over 2-operation sequences (remove then re-add, change then remove, failed add then add ...)'))
+    if tier == 'thorough':
+        for (b1, n1), (b2, n2) in [(c1, c2) for c1 in cases for c2 in cases]:
+            bind = {k + '1': v for k, v in b1.items()} | {k + '2': v for k, v in b2.items()} | {'g0': 0, 'l0': 1}
+            obs.append(Ob(f'C11.three.{n1}.{n2}.any', 'harness.C11', 'table_three_ops', bind=bind, timeout=900, functions=F, twin=False,
+                          bounds=f'3 objects (o0 starts with group key 0 / list key value 1; the operations may change both), operation '
+                                 f'"{n1}", then "{n2}", then ANY operation with any operands',
+                          claim='same over 3-operation sequences'))
     # the real MDIB tables (DescriptorsLookup / StatesLookup / MultiStatesLookup, provider and consumer side): transactions and
     # incoming reports that change an indexed attribute (Source, ConditionSignaled, parent via create/delete, handles) - the
     # harnesses of C01 compare every index of both MDIBs with a scan after the step
